@@ -53,10 +53,10 @@ CLAIMED = {
         "technique": "Coq proof (loop invariants over a model of keywordsearches.py) + differential correspondence",
     },
     "C04": {
-        "text": ("Theorems (Coq, no axioms) over a model of Processor._delete_nodes acting on the coordinates the read "
+        "text": ("10 theorems (Coq, no axioms) over a model of Processor._delete_nodes acting on the coordinates the read "
                  "side gathered (parents addressed by object identity, reversed processing, dict / list / set "
                  "branches): C04_delete_exact_partial - when the gathered coordinates are distinct and in document "
-                 "order within each parent (true of every collector-free path) the result is the document with "
+                 "order within each parent (C04_guard_from_document_order proves that this computable condition implies the guard; true of every collector-free path) the result is the document with "
                  "exactly those locations removed, every other node, value and relative order kept; "
                  "C04_root_refused / C04_root_never_deleted; _refuted witnesses for the two listed findings "
                  "(duplicate / disordered collector results F15, root among other matches F15b).  Tie: the real "
@@ -156,5 +156,52 @@ CLAIMED = {
         "design_ref": "DESIGN.md section 4 (C08), Appendix B, docs/C08.md",
         "note": NOTE_COMMON,
         "technique": "Coq proof (per-token lemmas over the rule-list parser, closed over all 256 characters; induction over segment lists) + differential correspondence",
+    },
+    "C06": {
+        "text": ("29 theorems (Coq, no axioms) over a model of differ.py (type dispatch, dicts, lists in all 2 x 5 "
+                 "array/AoH modes, the zip_longest loop, the pop-a-DELETE-to-make-a-CHANGE step, both synchronisers, "
+                 "sets, purge/add-everything, DifferConfig lookups, print selection and exit state): truthful "
+                 "entries, SAME equal / CHANGE differs, leaf coverage (guard: no null facing a container with "
+                 "content = listed finding F3), leaf-level accounting as permutations in every mode and "
+                 "configuration, non-SAME iff the documents differ as data for all ten uniform mode pairs incl. "
+                 "key/deep (guards: no explicit tags = F1, well-keyed lists = F4), reflexivity, exit state = 1 iff "
+                 "a non-SAME entry; every guard with a _refuted witness and a non-vacuity Example.  Per-path "
+                 "[rules]/[keys] configurations are covered by the accounting theorem and the judge, not by the "
+                 "iff theorem.  Tie: pairs identical / derived by edits / unrelated x all mode pairs x "
+                 "configurations; entries compared as multisets of (action, parsed path, lhs, rhs)."),
+        "design_ref": "DESIGN.md section 4 (C06), docs/C06.md",
+        "note": NOTE_COMMON + "  Python set iteration order is not modelled (entries are compared as multisets); resolved [rules]/[keys] tables are inputs taken from the real DifferConfig.",
+        "technique": "Coq proof (structural induction over both trees; keyed-join lemma modulo Python key equality) + differential correspondence",
+    },
+    "C03": {
+        "text": ("15 theorems (Coq, no axioms) over a model of set_value / _apply_change / _update_node with its "
+                 "whole-document identity-driven recursion and Nodes.make_new_node / wrap_type: the recursion "
+                 "equals a pointwise substitution at the addressed position plus true aliases (C03_set_exact, "
+                 "frame and pointwise lemmas), well-formedness (unique anchor names) is preserved, a failing "
+                 "change leaves the document as it was, and any completed history of Set / Create / Delete "
+                 "operations refines a plain-data model over Doc.erase (C03_history_partial, guards = listed "
+                 "findings F24 alias-key collision and F15 disordered collector deletes; C03_history_refuted "
+                 "witness).  The matched coordinates are inputs obtained from the real Processor.  Tie: "
+                 "histories of length <= 4 (quick) / 6 (thorough) step by step against the real code, with a "
+                 "ruamel dump and strict reload after every step."),
+        "design_ref": "DESIGN.md section 4 (C03), docs/C03.md",
+        "note": NOTE_COMMON + "  ruamel's dump/reload is exercised by the judge on every step, not modelled; float() and literal_eval are oracles.",
+        "technique": "Coq proof (substitution lemma over an identity-addressed document model; refinement to plain data by induction over the history) + differential correspondence",
+    },
+    "C16": {
+        "text": ("18 theorems (Coq, no axioms) over a model of the glue of the six console entry points as total "
+                 "functions of the parsed options, the loader's outcome per input and the library-level results "
+                 "(abstract inputs): yaml-get exit 0 iff >= 1 node and one rendering per matched node in order; "
+                 "yaml-diff exit 0 iff no non-SAME entry and prints the selected entries; yaml-validate exit 0 iff "
+                 "every document of every file (and a waiting STDIN) loads; yaml-merge delivers the fold of the "
+                 "pairwise merges or nothing on any non-zero ending; yaml-set delivers exactly the library "
+                 "post-state or nothing; yaml-paths prints exactly the results; main is a function of the loaded "
+                 "documents, so file vs STDIN delivery cannot change the outcome (empty-stream witness kept as "
+                 "_refuted).  JSON/YAML text, argparse and the library results are oracles.  Tie: the real main() "
+                 "functions in-process (and the installed console scripts in the thorough tier) vs glue model "
+                 "applied to the real library's results."),
+        "design_ref": "DESIGN.md section 4 (C16), docs/C16.md",
+        "note": NOTE_COMMON + "  Partial by nature: argparse, ruamel's emitter and json.dumps text are exercised, not modelled.",
+        "technique": "Coq proof (case analysis / list induction over a glue model with abstract library results) + differential correspondence on the real entry points",
     },
 }
